@@ -168,7 +168,7 @@ def evaluate(cases, pid="C18"):
         so = obs_table(r.get("singles")) if r.get("ok") else None
         ao = obs_table(r.get("aggregated")) if r.get("ok") else None
         finite = so is not None and all(math.isfinite(v) for _, v in so)
-        chk1 = chk2 = "true"
+        chk1 = chk2 = "true"          # placeholders when a checker is not applicable (judge() records that as None)
         if so is not None and finite:
             chk1 = "singles_okb tol %s %s T %s" % (heur, lbl, table_coq(so))
             if ao is not None and all(math.isfinite(v) for _, v in ao) and c["order"] > 1:
@@ -187,8 +187,13 @@ def evaluate(cases, pid="C18"):
         final.append(e.replace("@@TOL@@", qlit(tol)))
     vals = vlib.coq_eval(pid, HEADER, final, shard=40)
     out = []
-    for c, r, v in zip(cases, impl, vals):
-        out.append(judge(c, r, v))
+    for c, r, v, e in zip(cases, impl, vals, final):
+        j = judge(c, r, v)
+        if "singles_okb tol" not in e:
+            j["checker"]["singles_okb"] = None
+        if "aggregated_okb (" not in e:
+            j["checker"]["aggregated_okb"] = None
+        out.append(j)
     return out
 
 
